@@ -128,7 +128,7 @@ func checkC16(c *Ctx, r *Report) {
 		ci, ok := in.(ssa.CallInstruction)
 		return ok && isCallTo(in, "(core/host.Host).Connect", "(core/host.Host).NewStream") && recvIsField(ci, srvT+".dialerHost")
 	}, pkgFns, dialBackK)
-	r2.onlyIn("call dialBack", callPred(dialBackK), c.Fns, serve)
+	r2.onlyCallers("call dialBack", []string{dialBackK}, c.Fns, serve)
 
 	// ---- R3 ---------------------------------------------------------------
 	r3 := r.Rule("C16-R3", "E1/E6", 5, "non-nil dialAddr only from a request entry past public/CanDial/index checks; nil dialAddr reaches no dial")
